@@ -59,6 +59,11 @@ fn main() {
         }
         return;
     }
+    if std::env::args().nth(1).as_deref() == Some("C04-after-disconnect") {
+        std::panic::set_hook(Box::new(|_| {}));
+        c04::after_final_disconnect_child();
+        return;
+    }
     let cli = common::cli();
     match cli.id.as_str() {
         "C01" => c01::run(cli),
